@@ -188,7 +188,7 @@ PROPS = {
         "technique": T_R3 + "; dev-vs-release panic-site inventory",
     },
     "C15": {
-        "clauses": [r4.check_inventory, r4.check_block_loops, r4.check_block_loop_callers, r4.check_div_wide, r3.check_div_guards, r4.check_utf8, r4.check_raw_slice],
+        "clauses": [r4.check_inventory, r4.check_block_loops, r4.check_block_loop_callers, r4.check_div_wide, r3.check_div_guards, r4.check_utf8, r4.check_raw_slice, r4.check_raw_slice_lengths],
         "not_decided": "digits < radix out of to_radix_le and ceil(b/32) <= 2*ceil(b/64) (arithmetic facts, listed as assumptions); register-level effects of the `in(reg)` block counter being decremented (observation O1, noted)",
         "level_text": "Decides for every input: the unsafe inventory is closed (3 asm blocks, 5 unsafe calls); the block loops address only [ptr + 8*idx + K] with K inside the "
         "stride, run size/stride iterations guarded by size/stride != 0, store only through the *mut operand, and both pointers cover `len` digits by "
@@ -233,8 +233,8 @@ PROPS = {
         "technique": "recurrence extraction: dominance regions of the regime tests in MIR + call-graph reachability for recursive fan-out, evaluated symbolically in Python",
     },
     "C18": {
-        "clauses": [guards("range", "bound"), r10.check_rejection_loop, r10.check_gen_bigint, r10.check_delegations, r5check.check_ranges],
-        "not_decided": "gen_biguint(n) < 2^n and the platform-independent word order (shift arithmetic on the top word), the distribution itself",
+        "clauses": [guards("range", "bound"), r10.check_rejection_loop, r10.check_gen_bigint, r10.check_delegations, r10.check_gen_bits, r5check.check_ranges, r4.check_raw_slice_lengths],
+        "not_decided": "the distribution itself; big-endian word swapping (not compiled on this target); RNG quality",
         "level_text": "Decides: zero bound / empty / inverted range assertions are mandatory and compare the right operands with the right strictness; gen_biguint_below is a "
         "first-candidate rejection loop (bits = bound.bits(), strict <, candidate returned unchanged), hence every value of the range has equally many "
         "pre-images; gen_bigint re-draws zero on one outcome of a fresh bool and picks the sign by another; RandomBits and the Uniform samplers delegate "
